@@ -125,7 +125,7 @@ func resolveOutputPackage(ctx *context, c *Converter) {
 		return
 	}
 
-	if c.typ == nil && !c.outputPackageSet && targetPackage != c.Package {
+	if c.typ == nil && !c.outputPackageSet && targetPackage != c.Package && !inDeclaringDirectory(c) {
 		// goverter:variables default to the declaring package. With an output:file in
 		// another directory that package is wrong: infer it like for interfaces.
 		c.OutputPackagePath, c.OutputPackageName = "", ""
@@ -144,6 +144,21 @@ func resolveOutputPackage(ctx *context, c *Converter) {
 	if c.OutputPackageName == "" {
 		c.OutputPackageName = pkg.Types.Name()
 	}
+}
+
+// inDeclaringDirectory reports whether the output file lies in the directory of the declaring
+// file, however the two paths are spelled (symbolic links).
+func inDeclaringDirectory(c *Converter) bool {
+	output := c.OutputFile
+	if !filepath.IsAbs(output) {
+		output = filepath.Join(filepath.Dir(c.FileName), output)
+	}
+	outputDir, err := filepath.EvalSymlinks(filepath.Dir(output))
+	if err != nil {
+		return false
+	}
+	declaringDir, err := filepath.EvalSymlinks(filepath.Dir(c.FileName))
+	return err == nil && outputDir == declaringDir
 }
 
 func initConverter(loader *pkgload.PackageLoader, rawConverter *RawConverter) (*Converter, error) {
